@@ -278,20 +278,21 @@ def goto_failures(ctx, fn, text):
     return n, bad
 
 
-def crossfile_failures(ctx):
+def crossfile_failures(ctx, prefix='', suffix='\n', tag='x'):
     """go-to-definition into ANOTHER project file: the position must show the identifier in THAT
     file, whatever the cursor's own line and column are (in particular when the target sits on the
     same line number as the cursor, right of its column)."""
     from supp.project import Project
     from supp.assistant import location
-    d = os.path.join(ctx.scratch, 'xproj')
+    d = os.path.join(ctx.scratch, 'xproj_' + tag)
     os.makedirs(d, exist_ok=True)
     names = ['alpha', 'beta', 'gamma', 'delta', 'eps']
     target = ['class Holder:', '    pass', ''] + ['if True:        %s = %d' % (nm, i) for i, nm in enumerate(names)] + \
              ['def func_one(): pass', 'class Cls_two: pass']
     tpath = os.path.join(d, 'xmod.py')
-    open(tpath, 'w').write('\n'.join(target) + '\n')
-    tlines = target
+    ttext = prefix + '\n'.join(target) + suffix
+    open(tpath, 'w').write(ttext)
+    tlines = ttext.split('\n')        # the file as it is on disk (leading / trailing blank lines, form feeds)
     everything = names + ['func_one', 'Cls_two']
     main = ['from xmod import ' + ', '.join(everything)] + ['pass'] * 2 + [nm for nm in names] + ['func_one', 'Cls_two', ''] + \
            ['print(%s)' % nm for nm in everything]
@@ -363,10 +364,16 @@ def run(ctx):
             for b in bad:
                 direct_bad.append((fn, text if fn.startswith(gdir) else None, (b[0], b[2], 'go-to-definition from %r reports a position whose text is %r' % (b[1], b[3]))))
     cov['goto_positions_checked'] = ng
-    nx, xbad, xtext = crossfile_failures(ctx)
+    nx = 0
+    # the target file as it is on disk: plain, starting with blank lines (csv.py, opcode.py do), with a form feed
+    # page break, with trailing blanks and without a final newline
+    for tag, prefix, suffix in (('plain', '', '\n'), ('lead', '\n\n', '\n'), ('ff', '\n\x0c\n', '\n\n\n'), ('cmt', '# c\n\n', ''),
+                                ('sp', '   \n', '\n   \n')):
+        k, xbad, xtext = crossfile_failures(ctx, prefix, suffix, tag)
+        nx += k
+        for b in xbad[:3]:
+            direct_bad.append(('xmain.py', xtext, (b[0], b[2], 'cross-file go-to-definition from %r reports %r (target file variant %r): the text there is not the identifier' % (b[1], b[2], tag))))
     cov['crossfile_goto_positions_checked'] = nx
-    for b in xbad[:5]:
-        direct_bad.append(('xmain.py', xtext, (b[0], b[2], 'cross-file go-to-definition from %r reports %r: the text there is not the identifier' % (b[1], b[2]))))
     for fn, text, b in direct_bad[:20]:
         ctx.violation('binding %r reported at %r but text there is %r (%s)' % (b[0], b[1], b[2], os.path.basename(fn)),
                       {'kind': 'direct', 'file': None if text else fn, 'source': text, 'binding': b})
